@@ -53,6 +53,8 @@ for d in sorted(glob.glob(SEEDS + "/C*-*")):
     print(sid, res["outcome"], flush=True)
 for f in glob.glob(VERIF + "/replays/*.json"):
     os.remove(f)
+if os.environ.get("MX_NO_TABLE"):
+    sys.exit(0)   # several of these run in parallel: bin/mx_table.py writes the table from the meta.json files afterwards
 # the matrix keeps rows of properties not re-run
 old = {}
 mp = SEEDS + "/MATRIX.md"
